@@ -95,19 +95,19 @@ class C10(Prop):
             "multiset, final fingerprint) pairs")
     relevant_ops = set(ADD_OPS) | set(CREATE_OPS) | {"set_name", "del_name", "data_set", "data_del", "data_pop",
                                                         "remove_library", "remove_definition", "remove_port",
-                                                        "remove_cable", "remove_child", "clone"}
+                                                        "remove_cable", "remove_child", "clone", "parse"}
     components_real = REAL + ["spydrnet.util.get_libraries/get_definitions/get_ports/get_cables/get_instances"]
     components_stub = STUB + ["active naming policy switched by workload events"]
     assumptions = ["a parent's policy is its own '.NS' entry (docs/source/reference/NamespaceManager.rst)",
                    "identifiers under the EDIF policy compare case-insensitively; names never fold case",
                    "the '.NS' entry itself is not edited by the workload"]
-    runs = {"quick": 3500, "thorough": 120000}
+    runs = {"quick": 2200, "thorough": 80000}
 
     def configure(self, rng, tier):
         cfg = swarm_config(rng, base={"name": 6.0, "build": 6.0, "attach": 4.0, "remove": 3.5, "bulk_remove": 1.0,
                                       "orphans": 2.0, "connect": 0.3, "disconnect": 0.1, "bulk_disconnect": 0.05,
                                       "reference": 0.3, "top": 0.2, "bundle": 0.1, "data": 0.3, "hold": 0.0,
-                                      "clone": 0.25, "policy": 0.5, "gc": 0.5, "ns": 0.0},
+                                      "clone": 0.25, "policy": 0.5, "gc": 0.5, "ns": 0.0, "parse_text": 0.15},
                             rel_bias=["library", "definition", "port", "cable", "instance"])
         cfg["names"] = "collide"
         cfg["name_rate"] = rng.choice([0.6, 0.95])
